@@ -487,6 +487,50 @@ func init() {
 	}
 }
 
+func init() {
+	// pingwindow: keepalive on the client, the ACK direction held in
+	// flight for a while. The client sends N-1 messages, stays silent for
+	// more than a ping interval (so that a ping takes the last free slot of
+	// the window) and then sends two more: pings count against the window
+	// like any other DATA packet.
+	builders["pingwindow"] = func(name string, p params) *Scenario {
+		sc := &Scenario{}
+		if !p.has("ka") {
+			p["ka"] = "1s,4s"
+		}
+		p["kaside"] = "c"
+		common(sc, p)
+		kaSides(sc, p)
+		sc.Faults = FaultCfg{}
+		n := int(sc.N)
+		hold := p.dur("hold", sc.PingC+3*time.Second)
+		ops := sends('c', n-1, -1)
+		ops = append(ops, Op{Kind: "sleep", D: sc.PingC + 500*time.Millisecond})
+		for i := 0; i < 2; i++ {
+			ops = append(ops, Op{Kind: "send", Data: payload('c', n-1+i, -1)})
+		}
+		sc.ClientScripts = [][]Op{ops}
+		sc.ServerScripts = [][]Op{recvs(n + 1)}
+		sc.PreActions = func(w *World) {
+			if w.handshakeDone() && w.extra["held"] == nil {
+				w.extra["held"] = true
+				w.s2c.hold = true
+			}
+			if w.s2c.hold && w.s.Now() >= hold {
+				w.s2c.hold = false
+			}
+		}
+		sc.Monitors = append(sc.Monitors, monPrefix, monWindow, func(w *World) {
+			if w.s2c.hold && w.s.Now() > sc.PingC+200*time.Millisecond {
+				w.reached["ping-while-acks-held"] = true
+			}
+		})
+		sc.Final = append(sc.Final, finalAllDelivered)
+		sc.Cfg.Horizon = 90 * time.Second
+		return sc
+	}
+}
+
 // ---------------------------------------------------------------- C14: chunks
 
 func init() {
@@ -689,6 +733,16 @@ func init() {
 		sc.Faults = FaultCfg{}
 		k := p.int("k", int(sc.N)+2)
 		sc.ClientScripts = [][]Op{sends('c', k, -1)}
+		if pace := p.dur("pace", 0); pace > 0 {
+			// the application keeps sending at a steady pace (below
+			// the ping interval), so the window fills only slowly once
+			// the peer is gone
+			var ops []Op
+			for _, o := range sc.ClientScripts[0] {
+				ops = append(ops, o, Op{Kind: "sleep", D: pace})
+			}
+			sc.ClientScripts[0] = ops
+		}
 		sc.ServerScripts = [][]Op{recvs(k + 1)}
 		sc.ExtraActions = func(w *World) []vrt.Action {
 			if !w.handshakeDone() || w.blackholed || w.goalReached {
@@ -1066,6 +1120,43 @@ func init() {
 			})
 		}
 		sc.Owns = map[string]bool{"panic": true, "leak": true}
+		sc.NoDrainClose = true
+		sc.Cfg.Horizon = 10 * time.Second
+		sc.Cfg.DrainTime = time.Second
+		return sc
+	}
+	// queue3: one send queue used the way the connection uses it: the send
+	// loop adds packets and asks for the size, the receive loop processes
+	// acknowledgements (in order, out of order, NACKs), a third thread
+	// polls the size. Every lock operation is a scheduling point.
+	builders["queue3"] = func(name string, p params) *Scenario {
+		sc := &Scenario{}
+		common(sc, p)
+		sc.Cfg.LockPoints = true
+		sc.Faults = FaultCfg{}
+		sc.Custom = func(w *World) {
+			tm := gbn.NewTimeOutManager(nil)
+			q := gbn.VerifNewQueue(4, tm, func(*gbn.PacketData) error { return nil })
+			w.spawnApp("sendloop", func() {
+				for i := 0; i < 3; i++ {
+					if q.Size() < 3 {
+						q.AddPacket(&gbn.PacketData{Payload: []byte{byte(i)}})
+					}
+				}
+			})
+			w.spawnApp("recvloop", func() {
+				q.ProcessNACK(2) // nothing of the kind outstanding (yet)
+				q.ProcessACK(1)  // possibly out of order
+				q.ProcessACK(0)
+				q.ProcessNACK(1)
+			})
+			w.spawnApp("api", func() {
+				_ = q.Size()
+				_ = q.Size()
+			})
+		}
+		sc.Owns = map[string]bool{"panic": true, "leak": true}
+		sc.Final = append(sc.Final, finalDeadlock)
 		sc.NoDrainClose = true
 		sc.Cfg.Horizon = 10 * time.Second
 		sc.Cfg.DrainTime = time.Second
